@@ -145,7 +145,7 @@ func c30RunHistory(st *vfkit.Stats, envs []c30HistEnv, steps []c30HistStep, maxS
 			if !bytes.Equal(res.Payload, stored) {
 				return fmt.Sprintf("%s: Resolver returned %d bytes that are not what storage holds now (%d bytes)", where, len(res.Payload), len(stored)), changedAfterAccept
 			}
-			if ok, why := c30Allowed(e.env, res.Payload, maxSize); !ok {
+			if ok, why := c30Allowed(st, e.env, res.Payload, maxSize); !ok {
 				return fmt.Sprintf("%s: the same Resolver returned a blob although %s (envelope %s)", where, why, e.raw), changedAfterAccept
 			}
 			acceptedBefore[s.Env] = true
@@ -162,7 +162,7 @@ func c30RunHistory(st *vfkit.Stats, envs []c30HistEnv, steps []c30HistStep, maxS
 			if !bytes.Equal(blob, storeC.objs[e.env.Key]) {
 				return fmt.Sprintf("%s: Consumer returned %d bytes that are not what storage holds now", where, len(blob)), changedAfterAccept
 			}
-			if ok, why := c30Allowed(e.env, blob, 0); !ok {
+			if ok, why := c30Allowed(st, e.env, blob, 0); !ok {
 				return fmt.Sprintf("%s: the same Consumer returned a blob although %s (envelope %s)", where, why, e.raw), changedAfterAccept
 			}
 			acceptedBefore[s.Env] = true
